@@ -283,7 +283,9 @@ func runCheck(args []string) int {
 		for _, id := range order {
 			if !groups[id].obs[0].Canary {
 				k := groups[id].obs[0].Kind
-				if k == "post" || k == "lemma" || k == "panic-must" || k == "effects" || k == "ground" || k == "frame" || k == "secrecy" {
+				// only obligations that come from contract clauses or spec files can go stale; frame/effects/secrecy
+				// obligations are derived from the code on every run and are named by instruction sites
+				if k == "post" || k == "lemma" || k == "panic-must" || k == "ground" {
 					ids = append(ids, id)
 				}
 			}
